@@ -19,6 +19,7 @@ import Driver.C08
 import Driver.C15
 import Driver.C17
 import Driver.C19
+import Driver.C09
 /-! `votca_driver`: reads protocol lines `Cxx <op> <args…>` (implementation outputs included) on stdin,
 runs the executable model definitions (the ones the theorems are about) on the same inputs, prints
 `DISAGREE` / `PROPFAIL` lines for the cases that do not check and a `SUMMARY` at the end. -/
@@ -57,6 +58,7 @@ def dispatch (toks : List String) : Verdict :=
   | "C15" :: r => Driver.C15.handle r
   | "C17" :: r => Driver.C17.handle r
   | "C19" :: r => Driver.C19.handle r
+  | "C09" :: r => Driver.C09.handle r
   | _ => { agree := false, msg := "bad-line unknown property", tag := "bad" }
 
 partial def loop (h : IO.FS.Stream) (maxPrint : Nat) (acc : DAcc) : IO DAcc := do
